@@ -207,7 +207,12 @@ Proof. intros. unfold p_count. now rewrite p_unique_thaw. Qed.
 Lemma p_mtt_thaw : forall st o c z, p_mtt (thaw st) o c z = p_mtt st o c z.
 Proof.
   intros. unfold p_mtt. rewrite has_obj_thaw, p_attr_thaw.
-  destruct (has_obj st o); [|reflexivity]. destruct (p_attr st o SModelRec) as [[l|]|e]; [|reflexivity|reflexivity].
+  destruct (has_obj st o); [|reflexivity].
+  generalize (p_attr st o SModelRec). intros pa.
+  destruct pa as [cv|e].
+  2:{ cbn [rbind]. reflexivity. }
+  destruct cv as [l|].
+  2:{ cbn [rbind r_list]. reflexivity. }
   cbn [rbind r_list].
   rewrite (mapR_ext (mtt_item (thaw st) c z) (mtt_item st c z)); [reflexivity|].
   intros it _. unfold mtt_item. now rewrite kind_of_thaw, p_count_thaw.
